@@ -53,6 +53,11 @@ pub fn c18(tier: &str) -> i32 {
         size: tuple::n_cases(thorough),
         chunk: 16,
         what: "every (schema, initial row, update chain): x {no delete, delete} x every assignment of {committed-before, started-after, active, aborted, the reader itself} to creator, each updater and the deleter x every trimming horizon valid for that reader".into(),
+    }, FlatGroup {
+        name: "tuple-layouts".into(),
+        size: tuple::n_layout_cases(thorough),
+        chunk: 16,
+        what: "every column layout of 1-4 (thorough: 5) value columns over the alignment classes {BOOL 1 byte, INT 4, BIGINT 8, TEXT variable} x every NULL mask x {no update, one column set to NULL, one column set to another value} x the same delete / state-assignment / horizon product".into(),
     }];
     run_flat(
         "C18",
